@@ -124,11 +124,11 @@ var (
 	// device path (a mount and a device at one path are different items), and "/m2" / "/m2/"
 	// are two spellings of one directory (cases using both are judged by C03's differential
 	// oracle only, see Expect.SpellingMix).
-	mountKeys   = []string{"/m1", "/m2/", "/m1/./sub", "/dev/d1", "/m2"}
-	devKeys     = []string{"/dev/d1", "/dev/d2", "/dev/d3"}
-	cdiKeys     = []string{"v.com/c=x1", "v.com/c=x2", "v.com/c=x3"}
-	rlimitKeys  = []string{"RLIMIT_NOFILE", "RLIMIT_NPROC", "RLIMIT_CORE"}
-	hugeKeys    = []string{"2MB", "1GB"}
+	mountKeys  = []string{"/m1", "/m2/", "/m1/./sub", "/dev/d1", "/m2"}
+	devKeys    = []string{"/dev/d1", "/dev/d2", "/dev/d3"}
+	cdiKeys    = []string{"v.com/c=x1", "v.com/c=x2", "v.com/c=x3"}
+	rlimitKeys = []string{"RLIMIT_NOFILE", "RLIMIT_NPROC", "RLIMIT_CORE"}
+	hugeKeys   = []string{"2MB", "1GB"}
 	// two made-up keys and three real cgroup v2 files that are the unified spelling of typed
 	// fields (pids limit, memory limit, CPU shares): a typed field and its unified twin are
 	// two different items
@@ -621,9 +621,25 @@ func forceIgnoredStory(t *rapid.T, c *Case) {
 		return
 	}
 	if !plugHasField(a, x, g) {
-		a.Updates = append(a.Updates, Upd{Target: x, Fields: []string{g}})
+		first := Upd{Target: x, Fields: []string{g}}
+		if gen.Uniform(t, "szero", 3) == 0 {
+			first.ValOf = "zero" // everything collected for x so far is a zero / empty value
+		}
+		a.Updates = append(a.Updates, first)
 	}
-	b.Updates = append(b.Updates, Upd{Target: x, Fields: []string{f}}, Upd{Target: x, Fields: []string{g}, Ignore: true})
+	if gen.Uniform(t, "sonly", 2) == 0 {
+		// the dropped update is all the second plugin says about x
+		b.Updates = append(b.Updates, Upd{Target: x, Fields: []string{g}, Ignore: true})
+	} else {
+		b.Updates = append(b.Updates, Upd{Target: x, Fields: []string{f}}, Upd{Target: x, Fields: []string{g}, Ignore: true})
+	}
+	if gen.Uniform(t, "sthird", 2) == 0 {
+		// the third plugin collides with the FIRST one's field, behind the dropped update
+		if !plugHasField(d, x, g) {
+			d.Updates = append(d.Updates, Upd{Target: x, Fields: []string{g}, Ignore: rapid.Bool().Draw(t, "signore2")})
+		}
+		return
+	}
 	if !plugHasField(d, x, f) {
 		d.Updates = append(d.Updates, Upd{Target: x, Fields: []string{f}, Ignore: rapid.Bool().Draw(t, "signore")})
 	}
